@@ -38,8 +38,12 @@ def isWhitespace (c : Char) : Bool :=
 
 /-- `str::trim_start` -/
 def trimStart (s : List Char) : List Char := s.dropWhile isWhitespace
-/-- `str::trim_end` -/
-def trimEnd (s : List Char) : List Char := (s.reverse.dropWhile isWhitespace).reverse
+/-- `str::trim_end`: drop the longest suffix of white space. -/
+def trimEnd : List Char → List Char
+  | [] => []
+  | c :: cs =>
+    let r := trimEnd cs
+    if r.isEmpty && isWhitespace c then [] else c :: r
 /-- `str::trim` -/
 def trim (s : List Char) : List Char := trimEnd (trimStart s)
 
